@@ -201,6 +201,36 @@ theorem start_after_any_run_loads (s : State) (h : Init Loaded s) (sched : List 
   rw [hd] at hok
   exact hh.loaded hok
 
+/-! ## every stored version string other than the current one counts as outdated -/
+
+/-- a home whose assets_version holds *any* string other than `__version__` — older, newer,
+lexicographically larger ("v1.9.0" > "v1.31.1"), with trailing white space, empty text of a complete
+file — next to a complete (possibly older, key-lacking) settings.json or none is `Consistent`: all the
+theorems above apply to it. -/
+theorem outdated_home_consistent (fs : FS) (v : String) (hv : v ≠ current)
+    (hV : fs.file (.file .V) = .full (.ver v)) (hS : Safe fs) : Consistent fs := by
+  refine ⟨hS, fun h => ?_⟩
+  rcases h with h | h
+  · rw [hV] at h; cases h
+  · rw [hV] at h; exact absurd (by injection h with h; injection h) hv
+
+/-- **every_outdated_version_is_upgraded**: whatever string ≠ `__version__` is stored, a start merges
+the defaults into the settings (`upgrade d` has every default key and keeps the user's keys), stamps the
+current version, and loads every default key — decided by string *inequality*, exactly as the code does. -/
+theorem every_outdated_version_is_upgraded (fs : FS) (v : String) (d : Doc) (hv : v ≠ current)
+    (hd : fs.dir = true) (hV : fs.file (.file .V) = .full (.ver v)) (hS : fs.file (.file .S) = .full (.doc d)) :
+    let s := run ⟨fs, [⟨start .done, {}, false⟩]⟩ (List.replicate 14 (0, false))
+    s.procs.map (fun p => (p.failed, p.prog.isDone, p.regs.loaded)) = [(false, true, some (upgrade d))] ∧
+    s.fs.file (.file .S) = .full (.doc (upgrade d)) ∧ s.fs.file (.file .V) = .full (.ver current) ∧
+    hasDefaults (upgrade d) = true := by
+  refine ⟨?_, ?_, ?_, hasDefaults_upgrade d⟩ <;>
+    simp [run, State.sched, step, start, initProg, update, load, resetAll, writeAtomic, hd, hV, hS, hv,
+      Proc.fail, List.replicate, PRef.path, Src.text, Regs.put, Prog.isDone, FS.set]
+
+/-- the lexicographically larger older stamps are outdated for the model (kernel-evaluated) -/
+example : ("v1.9.0" ≠ current) ∧ ("v1.5.0" ≠ current) ∧ ("v9" ≠ current) ∧ ("z" ≠ current) ∧
+    ("v1.31.10" ≠ current) ∧ ("v1.31.1 " ≠ current) ∧ ("v1.31.1\n" ≠ current) ∧ ("" ≠ current) := by decide
+
 /-! ## the precondition `Consistent` is necessary -/
 
 /-- **inconsistent_home_stays_incomplete**: a home that evo itself cannot have left behind — a complete
